@@ -562,6 +562,58 @@ _AMEND.setdefault("C16", []).append(
      "C16.R2 uses the lemma that 'the converted name differs from the written "
      "one' is independent of the table of earlier converted names.  "
      "Application subclasses"))
+_AMEND["C01"].append(
+    ("text", "at both ends of a section;",
+     "at both ends of a section, and that a section type's key type is its "
+     "own, else its base's, else basic-key;"))
+_AMEND["C07"].append(
+    ("text", "Also decides that rendering a configuration error",
+     "The include guard is required to hold while every call that leads back "
+     "to the parser runs (the chain entry is popped in the finally of the "
+     "try that contains them).  Also decides that rendering a configuration "
+     "error"))
+_AMEND.setdefault("C09", []).append(
+    ("text", "docs<->registry agreement",
+     "the registry's constructor, lookup order (basic-key normalisation of "
+     "dot-free names; stock, then registered, then search) and reverse "
+     "lookup, docs<->registry agreement"))
+_AMEND.setdefault("C10", []).append(
+    ("text", "in decision tables equal to a parsed reference;",
+     "in decision tables equal to a parsed reference (including the parser "
+     "constructors, the schema element's start and end, the closing "
+     "handlers and the component parser's overrides);"))
+_AMEND.setdefault("C12", []).append(
+    ("text", "and refuses names that are not importable packages;",
+     "and refuses names that are not importable packages (the error carries "
+     "a copy of the package's search path); the parser hands the expanded, "
+     "stripped name to the loader;"))
+_AMEND["C13"].append(
+    ("text", "the derived schema copies into its own containers.",
+     "the derived schema copies into its own containers; type objects are "
+     "constructed with their own empty containers."))
+_AMEND.setdefault("C16", []).append(
+    ("text", "that child matchers are given their parent's list",
+     "that child matchers (also the overriding ones) are given their "
+     "parent's list as a required argument, that a derived type keeps the "
+     "base's item order"))
+_AMEND.setdefault("C17", []).append(
+    ("text", "that the reader recognises the empty form on the header text "
+     "as written;",
+     "that the reader recognises the empty form on the header text as "
+     "written and strips every line of all surrounding whitespace;"))
+_AMEND.setdefault("C05", []).append(
+    ("text", "Does not decide outcomes of particular",
+     "The reader side (substitute: lookup among the definitions read so far, "
+     "the environment only for the env form) equals the reference.  Does not "
+     "decide outcomes of particular"))
+_AMEND.setdefault("C03", []).append(
+    ("text", "directive set and argument requirement,",
+     "directive set, argument requirement and argument splitting,"))
+_AMEND.setdefault("C19", []).append(
+    ("note", "A callee that takes ownership",
+     "In the cross-checked decision tables a call inside try/finally may "
+     "raise through the finally clause (so clean-up moved out of the finally "
+     "is a difference).  A callee that takes ownership"))
 for _pid, _items in _AMEND.items():
     for _field, _old, _new in _items:
         assert _old in CLAIMS[_pid][_field], (_pid, _old)
